@@ -36,16 +36,16 @@ fn interesting_slot(r: &mut Rng, g: &GenesisValues) -> u64 {
     match r.below(12) {
         0 => r.below(40),
         1 => jitter(r, sks),                                                       // era boundary
-        2 => { let k = r.below(sks / bsz + 2); jitter(r, k * bsz) }                // Byron epoch boundaries (in slots)
-        3 => { let k = r.below(12); jitter(r, k * g.byron_epoch_length as u64) }   // multiples of the epoch length in seconds
-        4 => { let k = r.below(600); jitter(r, sks.saturating_add(k * ssz)) }      // Shelley epoch boundaries
+        2 => { let k = r.below((sks / bsz).saturating_add(2)); jitter(r, k.saturating_mul(bsz)) }                // Byron epoch boundaries (in slots)
+        3 => { let k = r.below(12); jitter(r, k.saturating_mul(g.byron_epoch_length as u64)) }   // multiples of the epoch length in seconds
+        4 => { let k = r.below(600); jitter(r, sks.saturating_add(k.saturating_mul(ssz))) }      // Shelley epoch boundaries
         5 => if sks > 0 { r.below(sks) } else { r.below(1000) },                    // anywhere in Byron
         6 => sks.saturating_add(r.below(1 << 28)),                                  // realistic Shelley slots
         7 => r.below(BOUND),
         8 => BOUND - 1 - r.below(3),
         9 => bsz.saturating_sub(1) + r.below(3),                                   // end of the first Byron epoch
         10 => r.below(bsz.max(1)),                                                  // first Byron epoch
-        _ => sks.saturating_add(r.below(ssz * 3)),
+        _ => sks.saturating_add(r.below(ssz.saturating_mul(3))),
     }
 }
 
@@ -61,7 +61,7 @@ pub fn generate(g: &mut Gen) {
             let ssl = *r.pick(&[1u64, 1, 1, 2, 5, 0]);
             let sel = *r.pick(&[432000u64, 86400, 10, 0, 4294967295]);
             let bks = if r.chance(1, 4) { r.below(100) } else { 0 };
-            let sks = match r.below(4) { 0 => 0, 1 => r.below(50) * (if bsl > 0 { (bel / bsl).max(1) } else { 1 }), 2 => r.below(1 << 24), _ => r.u64_edgy() };
+            let sks = match r.below(4) { 0 => 0, 1 => r.below(50).saturating_mul(if bsl > 0 { (bel / bsl).max(1) } else { 1 }), 2 => r.below(1 << 24), _ => r.u64_edgy() };
             let bkt = if r.chance(1, 6) { r.u64_edgy() } else { 1500000000 + r.below(1 << 28) };
             let skt = if r.chance(1, 6) { r.u64_edgy() } else { bkt.wrapping_add(sks.wrapping_mul(bsl)) };
             ops.push(format!("custom {bel} {bsl} {bks} {bkt} {sel} {ssl} {sks} {skt}"));
